@@ -162,7 +162,16 @@ class ClosAdapter(Adapter):
     def step(self, w, l):
         act, C = l['act'], w['clo']
         if act == 'SetPotential':
-            C.potential = potential_family(l['fam'], self.r, self.c, self.rng('pot', l['fam']))
+            u = potential_family(l['fam'], self.r, self.c, self.rng('pot', l['fam']))
+            how = l.get('how', 'new')
+            if how == 'new' or C.potential is None or not isinstance(C.potential, np.ndarray) or np.shape(C.potential) != np.shape(u):
+                C.potential = np.array(u, dtype=float)
+            elif self.warm(C) and how == 'refill':
+                buf = C.potential            # the array the user assigned before: refilled and assigned again
+                buf[:] = u
+                C.potential = buf
+            else:
+                C.potential[:] = u           # modified in place, nothing assigned
             w['fam'] = l['fam']
             return {}
         if act == 'SetSigma':
@@ -174,6 +183,16 @@ class ClosAdapter(Adapter):
         if act == 'Calculate':
             return self.calculate(w, l)
         raise MachineryError(act)
+
+    def warm(self, C):
+        """the closure has been evaluated with its present potential before the user changes the array's values (a Calculate
+        step of the specification, which leaves the abstract state unchanged: SetPotential; Calculate; SetPotential(refill))"""
+        try:
+            with np.errstate(all='ignore'):
+                C.calculate(self.r, np.zeros(len(self.r)))
+        except Exception:          # noqa - e.g. sigma not set yet: then nothing was evaluated
+            pass
+        return True
 
     def calculate(self, w, l):
         C = w['clo']
